@@ -11,9 +11,15 @@
 (*   Export(id)        Nodes ; Layout ; Render ; Emit (reads axis)         *)
 (* A configuration c is abstract: OwnScale(c) says whether the caller      *)
 (* supplies the scale; Axis(c) is the axis the data of c implies.          *)
+(* The axis is FITTED (domain derived from the data, made nice, range set) *)
+(* exactly once, at construction; Export only reads it.  FitAxisAtExport = *)
+(* TRUE is the realistic wrong variant in which every export fits again:   *)
+(* nice() of an already nice domain is a different domain for some data    *)
+(* (NiceSensitive configurations: the widened extent picks a coarser tick  *)
+(* interval), so a second export then draws another document.              *)
 (***************************************************************************)
 EXTENDS Integers, Sequences, FiniteSets, TLC
-CONSTANTS Ids, Cfgs, OwnScaleCfgs, ShareDefaultScale, ReadsSharedDirection, MaxLen
+CONSTANTS Ids, Cfgs, OwnScaleCfgs, NiceSensitive, ShareDefaultScale, ReadsSharedDirection, FitAxisAtExport, MaxLen
 
 VARIABLES tl,        \* id -> [cfg, scale] ; scale is "default" or <<"own", id, n>>
           axis,      \* scale object -> the axis last written into it
@@ -26,22 +32,26 @@ vars == <<tl, axis, out, sharedDir, nobj, h>>
 None == [kind |-> "none"]
 DefaultObj == <<"default", 0>>
 Doc(c, ax, dir) == [kind |-> "doc", cfg |-> c, axis |-> ax, dir |-> dir]
-Solo(c) == Doc(c, c, c)                          \* exported alone in a fresh process: its own axis, its own direction
-Init == tl = [i \in Ids |-> None] /\ axis = [s \in {DefaultObj} |-> "unset"] /\ out = [i \in Ids |-> None] /\ sharedDir = "unset" /\ nobj = 0 /\ h = <<>>
+Fitted(c, n) == [c |-> c, n |-> n]               \* the axis of configuration c after n applications of nice()
+Solo(c) == Doc(c, Fitted(c, 1), c)               \* exported alone in a fresh process: its own axis fitted once, its own direction
+Refit(a) == IF a.c = "unset" THEN a ELSE IF a.c \in NiceSensitive THEN Fitted(a.c, IF a.n < 3 THEN a.n + 1 ELSE 3) ELSE Fitted(a.c, 1)
+Init == tl = [i \in Ids |-> None] /\ axis = [s \in {DefaultObj} |-> Fitted("unset", 0)] /\ out = [i \in Ids |-> None] /\ sharedDir = "unset" /\ nobj = 0 /\ h = <<>>
 
 Construct(i, c) ==
     LET s == IF c \in OwnScaleCfgs \/ ~ShareDefaultScale THEN <<"obj", nobj + 1>> ELSE DefaultObj
     IN /\ tl' = [tl EXCEPT ![i] = [kind |-> "tl", cfg |-> c, scale |-> s]]
-       /\ axis' = [x \in DOMAIN axis \cup {s} |-> IF x = s THEN c ELSE axis[x]]      \* InitAxis writes through the reference
+       /\ axis' = [x \in DOMAIN axis \cup {s} |-> IF x = s THEN Fitted(c, IF FitAxisAtExport THEN 0 ELSE 1) ELSE axis[x]]      \* InitAxis writes through the reference
        /\ out' = [out EXCEPT ![i] = None]
        /\ sharedDir' = c                         \* options["labella"]["direction"] = direction, into the shared default dict
        /\ nobj' = nobj + 1
        /\ h' = Append(h, [a |-> "K", i |-> i, c |-> c])
 Export(i) ==
     /\ tl[i].kind = "tl"
-    /\ out' = [out EXCEPT ![i] = Doc(tl[i].cfg, axis[tl[i].scale], IF ReadsSharedDirection THEN sharedDir ELSE tl[i].cfg)]
+    /\ LET ax == IF FitAxisAtExport THEN Refit(axis[tl[i].scale]) ELSE axis[tl[i].scale]
+       IN /\ out' = [out EXCEPT ![i] = Doc(tl[i].cfg, ax, IF ReadsSharedDirection THEN sharedDir ELSE tl[i].cfg)]
+          /\ axis' = [axis EXCEPT ![tl[i].scale] = ax]          \* (unchanged unless the wrong variant fits again)
     /\ h' = Append(h, [a |-> "E", i |-> i, c |-> tl[i].cfg])
-    /\ UNCHANGED <<tl, axis, sharedDir, nobj>>
+    /\ UNCHANGED <<tl, sharedDir, nobj>>
 Next == Len(h) < MaxLen /\ \E i \in Ids : (\E c \in Cfgs : Construct(i, c)) \/ Export(i)
 Spec == Init /\ [][Next]_vars
 
